@@ -12,6 +12,7 @@ import dis
 import glob
 import os
 import re
+import signal
 import types
 import warnings
 
@@ -22,6 +23,8 @@ LEVEL = "exploration"
 NEEDS_EXT = True     # pytype.typegraph.cfg_utils imports the C++ cfg module
 
 PYVER = (3, 12)
+HORIZON = 90         # s per source (the largest stdlib file needs about 2 s); no result by then = violation (x)
+_SLOW = [False]      # set by the first time-out in this process: later sources get 5 s, their work item stops
 STDLIB = os.environ.get("VERIF_STDLIB", "/root/.pyenv/versions/3.12.1/lib/python3.12")
 
 _PSEUDO = ("SETUP_EXCEPT_311", "POP_BLOCK")       # inserted by pytype, absent from 3.12 bytecode
@@ -272,6 +275,14 @@ def check_code(oc, pycode, st):
   return bad
 
 
+class NoTermination(Exception):
+  pass
+
+
+def _on_alarm(signum, frame):
+  raise NoTermination("no block graph within the horizon")
+
+
 def check_source(src, filename, st):
   """Run the real pipeline on one source; returns the list of violations (strings)."""
   boot.load()
@@ -284,12 +295,22 @@ def check_source(src, filename, st):
     except (SyntaxError, ValueError, RecursionError, MemoryError):
       st["not_compilable"] = st.get("not_compilable", 0) + 1
       return None
+    old = signal.signal(signal.SIGALRM, _on_alarm)
+    signal.setitimer(signal.ITIMER_REAL, 5 if _SLOW[0] else HORIZON)
     try:
-      code = pyc.compile_src(src, filename, PYVER, None)
-      oc, _ = blocks.process_code(code)
+      try:
+        code = pyc.compile_src(src, filename, PYVER, None)
+        oc, _ = blocks.process_code(code)
+      finally:
+        signal.setitimer(signal.ITIMER_REAL, 0)
     except Exception as e:  # pylint: disable=broad-except
+      if isinstance(e, NoTermination):
+        _SLOW[0] = True
+        st["timeouts"] = st.get("timeouts", 0) + 1
       return [("(x) pipeline raised %s" % type(e).__name__,
                "(x) pipeline raised %s: %s" % (type(e).__name__, str(e)[:160]))]
+    finally:
+      signal.signal(signal.SIGALRM, old)
   bad = []
   todo = [(oc, pycode)]
   while todo:
@@ -366,6 +387,9 @@ def work(item):
       if bad:
         st["bad_inputs"] = st.get("bad_inputs", 0) + 1
         _note(sigs, bad, len(src), {"kind": "ps", "id": pid})
+        if st.get("timeouts"):
+          st["items_cut_short"] = 1
+          break
     st["ps_candidates"] = gen.get("candidates", 0)
     st["ps_rejected"] = gen.get("rejected", 0)
   else:
@@ -382,6 +406,9 @@ def work(item):
       if bad:
         st["bad_inputs"] = st.get("bad_inputs", 0) + 1
         _note(sigs, bad, len(src), {"kind": "file", "path": os.path.relpath(path, STDLIB)})
+        if st.get("timeouts"):
+          st["items_cut_short"] = 1
+          break
   return st, sigs
 
 
@@ -415,6 +442,8 @@ def run(rep, tier, seed):
     rep.violation(sig_key(sig), "%s [%d input(s); smallest: %s] %s" % (sig, n, wit[1], msg),
                   dict(case, signature=sig, inputs=n, message=msg))
   g = tot.get
+  if g("items_cut_short"):
+    rep.cap("%d work item(s) stopped at their first source without a block graph within the horizon" % g("items_cut_short"))
   rep.evaluations = g("code_objects", 0)
   rep.nontrivial_extra = g("co_multiblock", 0)
   rep.outcome("code_objects_single_block", g("code_objects", 0) - g("co_multiblock", 0))
